@@ -420,7 +420,7 @@ Section FrameProof.
       + intros _.
         assert (HN0 : N0 = empty).
         { apply Hz. rewrite (sim_rev _ _ Hsim), He. exact rev_empty. }
-        rewrite HN0. rewrite <- He. exact Hn.
+        rewrite HN0. rewrite He in Hn. exact Hn.
     - split.
       + cbn [Sref]. unfold save_form. rewrite (proj2 (N.eqb_neq _ _) E).
         eapply sim_trans; [exact Hs|]. apply sim_sym. apply sim_set_ck.
@@ -456,8 +456,8 @@ Section FrameProof.
       rewrite Nat.max_l by lia. split; [reflexivity|]. split; [apply sim_refl|].
       destruct (Jinv_all h Hh) as [I0 _]. exact I0.
     - replace (seq c cnt) with (seq c (h - c) ++ seq h (c + cnt - h)).
-      2:{ replace cnt with ((h - c) + (c + cnt - h))%nat at 3 by lia.
-          rewrite seq_app. replace (c + (h - c))%nat with h by lia. reflexivity. }
+      2:{ replace (seq h (c + cnt - h)) with (seq (c + (h - c)) (c + cnt - h)) by (f_equal; lia).
+          rewrite <- seq_app. f_equal. lia. }
       rewrite map_app, AL_app. rewrite loop_replay by (try assumption; lia). cbn [fst snd].
       destruct (Jinv_all h Hh) as [I0 _].
       destruct (loop_fresh h (c + cnt - h) h (Sref h) ltac:(lia) ltac:(lia) (sim_refl _) I0) as (Hr & Hs & Hz).
@@ -466,5 +466,366 @@ Section FrameProof.
       rewrite map_app. f_equal.
       apply map_ext_in. intros k Hk. apply in_seq in Hk. unfold my_exp.
       rewrite (proj2 (Nat.ltb_ge _ _)) by lia. reflexivity.
+  Qed.
+
+  (* ---- machines: ApplyBatch on a machine that holds S_h ---- *)
+
+  Definition store_of (k : nat) : option St :=
+    if revision (Sref k) =? 0 then None else Some (Sref k).
+
+  Lemma skipn_nth (l : list (N * N * C)) : forall c, (c < length l)%nat -> skipn c l = nth c l dflt :: skipn (S c) l.
+  Proof.
+    induction l as [|x l IH]; intros c Hc; [cbn in Hc; lia|].
+    destruct c as [|c]; [reflexivity|]. cbn [skipn nth]. cbn [length] in Hc. rewrite IH by lia. reflexivity.
+  Qed.
+
+  Lemma firstn_skipn_seq : forall cnt c, (c + cnt <= length log)%nat ->
+    firstn cnt (skipn c log) = map ent (seq c cnt).
+  Proof.
+    induction cnt as [|cnt IH]; intros c Hc; [reflexivity|].
+    rewrite skipn_nth by lia. cbn [firstn seq map]. fold (ent c). rewrite IH by lia. reflexivity.
+  Qed.
+
+  Lemma take_seq c cnt : (N.to_nat c + N.to_nat cnt <= length log)%nat ->
+    take_entries log c cnt = map ent (seq (N.to_nat c) (N.to_nat cnt)).
+  Proof. intro H. unfold take_entries. apply firstn_skipn_seq. exact H. Qed.
+
+  Lemma Sref_zero h : (h <= length log)%nat -> revision (Sref h) = 0 -> Sref h = empty.
+  Proof. intros Hh E. destruct (Jinv_all h Hh) as [I0 _]. exact (I0 E). Qed.
+
+  Lemma AB_outcome m mode h c cnt :
+    m_state m = Sref h -> (c <= h)%nat -> (h <= length log)%nat -> (c + cnt <= length log)%nat ->
+    let T := Sref (Nat.max h (c + cnt)) in
+    let res := map (my_exp h) (seq c cnt) in
+    AB m mode (map ent (seq c cnt)) =
+      if revision T =? 0 then (m, BO res false (Some T) None)
+      else if mode =? 0 then (Mk T (Some T) false, BO res false (Some T) (Some T))
+      else if mode =? 1 then (Mk (Sref h) (m_store m) true, BO res true None (Some T))
+      else (Mk (Sref h) (Some T) true, BO res true None (Some T)).
+  Proof.
+    intros Hm Hc Hh Hn. cbv zeta. unfold ApplyBatch. rewrite Hm.
+    destruct (batch_loop h c cnt Hc Hh Hn) as (Hr & Hs & Hz). cbv zeta in Hr, Hs, Hz.
+    destruct (AL (revision (Sref h)) (Sref h) (map ent (seq c cnt))) as [N' rs]. cbn [fst snd] in *.
+    subst rs. rewrite (sim_rev _ _ Hs).
+    set (T := Sref (Nat.max h (c + cnt)%nat)) in *.
+    assert (HT : (Nat.max h (c + cnt) <= length log)%nat) by lia.
+    destruct (N.eq_dec (revision T) 0) as [E|E].
+    - rewrite (proj2 (N.eqb_eq _ _) E).
+      assert (N' = T).
+      { assert (HTe : T = empty) by (apply Sref_zero; assumption).
+        rewrite HTe. apply Hz. rewrite (sim_rev _ _ Hs). exact E. }
+      subst N'. reflexivity.
+    - rewrite (proj2 (N.eqb_neq _ _) E).
+      destruct (Jinv_all _ HT) as [_ I1]. destruct (I1 E) as (_ & Hck & _).
+      rewrite (sim_saved _ _ Hs Hck). reflexivity.
+  Qed.
+
+  (* ---- the reference run as observed ---- *)
+
+  Notation RUN := (run_cmds revision applied set_app set_ck mutate ck empty log).
+  Notation BSTEP := (batch_step revision applied set_app set_ck mutate ck log).
+
+  Definition refM (k : nat) : Machine St := Mk (Sref k) (store_of k) false.
+  Definition refO (k : nat) : Step St :=
+    ST 0 1 0 [Rref k] false (Some (Sref (S k))) (store_of (S k)) (Sref (S k)) (store_of (S k)) false.
+
+  Lemma my_exp_self k : my_exp k k = Rref k.
+  Proof. unfold my_exp. rewrite Nat.ltb_irrefl. reflexivity. Qed.
+
+  Lemma store_of_zero k : revision (Sref k) = 0 -> store_of k = None.
+  Proof. intro E. unfold store_of. rewrite (proj2 (N.eqb_eq _ _) E). reflexivity. Qed.
+  Lemma store_of_nz k : revision (Sref k) <> 0 -> store_of k = Some (Sref k).
+  Proof. intro E. unfold store_of. rewrite (proj2 (N.eqb_neq _ _) E). reflexivity. Qed.
+
+  Lemma BSTEP_ref k : (k < length log)%nat -> BSTEP (refM k) (N.of_nat k) 1 0 = (refM (S k), refO k).
+  Proof.
+    intro Hk. unfold batch_step. rewrite take_seq by lia.
+    rewrite Nat2N.id. change (N.to_nat 1) with 1%nat.
+    rewrite (AB_outcome (refM k) 0 k k 1 eq_refl ltac:(lia) ltac:(lia) ltac:(lia)).
+    replace (Nat.max k (k + 1)%nat) with (S k) by lia. cbn [seq map]. rewrite my_exp_self.
+    destruct (N.eq_dec (revision (Sref (S k))) 0) as [E|E].
+    - rewrite (proj2 (N.eqb_eq _ _) E).
+      assert (Ek : Sref k = empty) by (apply (Sref_zero_empty k (S k)); [lia|lia|exact E]).
+      assert (Ek1 : Sref (S k) = empty) by (apply Sref_zero; [lia|exact E]).
+      assert (R0 : revision (Sref k) = 0) by (rewrite Ek; exact rev_empty).
+      unfold refM, refO. rewrite (store_of_zero _ E), (store_of_zero _ R0). cbn [m_state m_store m_degraded].
+      rewrite Ek, Ek1. reflexivity.
+    - rewrite (proj2 (N.eqb_neq _ _) E). cbn [N.eqb].
+      unfold refM, refO. rewrite (store_of_nz _ E). reflexivity.
+  Qed.
+
+  Lemma run_singles : forall j k, (k + j <= length log)%nat ->
+    RUN (refM k) (N.of_nat k) (repeat (CBatch 1 0) j) = map refO (seq k j).
+  Proof.
+    induction j as [|j IH]; intros k Hk; [reflexivity|].
+    cbn [repeat run_cmds seq map]. rewrite BSTEP_ref by lia.
+    cbn [st_err refO]. replace (N.of_nat k + 1) with (N.of_nat (S k)) by lia.
+    rewrite IH by lia. reflexivity.
+  Qed.
+
+  Definition ref_obs : list (Step St) := map refO (seq 0 (length log)).
+  Definition ref_states : list St := empty :: map st_pub ref_obs.
+  Definition ref_results : list Result := map (fun s => hd no_outcome (st_results s)) ref_obs.
+
+  Lemma Sk_ref k : (k <= length log)%nat -> Sk empty ref_states (N.of_nat k) = Sref k.
+  Proof.
+    intro Hk. unfold Sk, ref_states, ref_obs. rewrite Nat2N.id.
+    destruct k as [|k]; [reflexivity|]. cbn [nth]. rewrite map_map.
+    rewrite (nth_indep _ empty (st_pub (refO 0))) by (rewrite map_length, seq_length; lia).
+    rewrite (map_nth (fun x => st_pub (refO x)) (seq 0 (length log)) 0%nat k).
+    rewrite seq_nth by lia. reflexivity.
+  Qed.
+
+  Lemma Rk_ref k : (k < length log)%nat -> Rk ref_results (N.of_nat k) = Rref k.
+  Proof.
+    intro Hk. unfold Rk, ref_results, ref_obs. rewrite Nat2N.id. rewrite map_map.
+    rewrite (nth_indep _ no_outcome (hd no_outcome (st_results (refO 0)))) by (rewrite map_length, seq_length; lia).
+    rewrite (map_nth (fun x => hd no_outcome (st_results (refO x))) (seq 0 (length log)) 0%nat k).
+    rewrite seq_nth by lia. reflexivity.
+  Qed.
+
+  (* ---- the reference run satisfies the per-entry clauses ---- *)
+
+  Notation CHECK_REF_STEP := (check_ref_step revision applied valid ckok eqS body_eq logical_eq).
+  Notation CHECK_REF := (check_ref revision applied valid ckok eqS body_eq logical_eq).
+
+  Lemma ref_step_facts k : (k < length log)%nat ->
+    let pre := Sref k in let post := Sref (S k) in let r := Rref k in
+    (revision post = 0 /\ pre = empty /\ post = empty /\ r_rev r = 0
+     /\ (r_class r = cNoop \/ r_class r = cRejected)
+     /\ r_applied r = (if r_class r =? cRejected then idx k else 0))
+    \/ (revision post <> 0 /\ Good post /\ ckok post = true /\ r_rev r = revision post
+        /\ r_applied r = idx k /\ applied post = idx k /\ applied pre <= idx k
+        /\ (((r_class r = cNoop \/ r_class r = cRejected) /\ body_eq post pre = true)
+            \/ (r_class r = cChanged /\ revision post = revision pre + 1)
+            \/ (r_class r = cUpdated /\ revision post = revision pre /\ logical_eq post pre = true))).
+  Proof.
+    intro Hk. cbv zeta.
+    destruct (N.eq_dec (revision (Sref k)) 0) as [Ek|Ek].
+    - assert (He : Sref k = empty) by (apply Sref_zero; [lia|exact Ek]).
+      pose proof (AE_mut_empty (fst (fst (ent k))) (snd (fst (ent k))) (snd (ent k))) as H.
+      cbv zeta in H. destruct H as [H0 H1].
+      unfold Rref. cbn [Sref]. unfold save_form, AEmk. rewrite He.
+      set (p := AE_mut empty (fst (fst (ent k))) (snd (fst (ent k))) (snd (ent k))) in *.
+      destruct (N.eq_dec (revision (fst p)) 0) as [E|E].
+      + left. destruct (H0 E) as (Hn & Hrr & Hc & Hra).
+        rewrite (proj2 (N.eqb_eq _ _) E). rewrite rev_empty. repeat split; auto.
+      + right. destruct (H1 E) as (Hc & Hr1 & Ha & Hg & Hrr & Hra).
+        rewrite (proj2 (N.eqb_neq _ _) E). rewrite rev_set_ck, app_set_ck, rev_empty, app_empty.
+        split; [exact E|]. split; [apply Good_set_ck; exact Hg|]. split; [apply ckok_saved|].
+        split; [congruence|]. split; [exact Hra|]. split; [exact Ha|]. split; [lia|].
+        right; left. split; [exact Hc|]. rewrite Hr1. reflexivity.
+    - right.
+      destruct (Jinv_all k ltac:(lia)) as [_ I1]. destruct (I1 Ek) as (Hg & _ & Hpos & Ha).
+      assert (Hlt : applied (Sref k) < fst (fst (ent k))) by (rewrite Ha; apply increasing; lia).
+      pose proof (AE_mut_good (Sref k) _ (snd (fst (ent k))) (snd (ent k)) Hg Hlt) as H.
+      cbv zeta in H. fold (AEmk (Sref k) k) in H. destruct H as (Hg2 & Ha2 & Hrr & Hra & Hcl).
+      pose proof (Good_rev _ Hg2) as Hr2.
+      unfold Rref. cbn [Sref]. unfold save_form. rewrite (proj2 (N.eqb_neq _ _) Hr2).
+      rewrite rev_set_ck, app_set_ck.
+      split; [exact Hr2|]. split; [apply Good_set_ck; exact Hg2|]. split; [apply ckok_saved|].
+      split; [exact Hrr|]. split; [exact Hra|]. split; [exact Ha2|]. split; [unfold idx; lia|].
+      destruct Hcl as [[Hc He]|[[Hc Hrv]|(Hc & Hrv & Hl)]].
+      + left. split; [exact Hc|]. rewrite body_eq_set_ck, He, body_eq_set_app. apply body_eq_refl.
+      + right; left. split; assumption.
+      + right; right. split; [exact Hc|]. split; [exact Hrv|]. rewrite logical_eq_set_ck. exact Hl.
+  Qed.
+
+  Lemma check_ref_step_ok k : (k < length log)%nat -> CHECK_REF_STEP (Sref k) (idx k) (refO k) = true.
+  Proof.
+    intro Hk. unfold check_ref_step, refO.
+    cbn [st_kind st_n st_mode st_err st_degraded st_results st_pub st_final st_store st_saved N.eqb negb andb].
+    unfold oo_eq. rewrite eqS_refl. cbn [andb].
+    destruct (ref_step_facts k Hk) as [(E & Hpre & Hpost & Hrr & Hc & Hra)|(E & Hg & Hck & Hrr & Hra & Hap & Hle & Hcl)].
+    - rewrite (store_of_zero _ E). rewrite Hrr, Hra, Hpre, Hpost, rev_empty, app_empty.
+      cbn [N.eqb oo_none andb]. rewrite eqS_refl. cbn [andb].
+      destruct Hc as [Hc|Hc]; rewrite Hc; cbn; rewrite ?N.eqb_refl; cbn; apply body_eq_refl.
+    - rewrite (store_of_nz _ E). rewrite Hrr, Hra, Hap, N.eqb_refl, (proj2 (N.eqb_neq _ _) E).
+      rewrite (Good_valid _ Hg), Hck, !N.eqb_refl, eqS_refl. rewrite N.max_r by exact Hle. rewrite N.eqb_refl.
+      cbn [andb].
+      destruct Hcl as [[Hc He]|[[Hc Hrv]|(Hc & Hrv & Hl)]].
+      + rewrite He. destruct Hc as [Hc|Hc]; rewrite Hc; reflexivity.
+      + rewrite Hc, Hrv. cbn. apply N.eqb_refl.
+      + rewrite Hc, Hrv, Hl. cbn. rewrite N.eqb_refl. reflexivity.
+  Qed.
+
+  Lemma check_ref_ok : forall j k, (k + j <= length log)%nat ->
+    CHECK_REF (Sref k) (map idx (seq k j)) (map refO (seq k j)) = true.
+  Proof.
+    induction j as [|j IH]; intros k Hk; [reflexivity|].
+    cbn [seq map check_ref]. rewrite check_ref_step_ok by lia. cbn [andb refO st_pub]. apply IH. lia.
+  Qed.
+
+  (* ---- scenarios ---- *)
+
+  Notation CHECK_STEP := (check_step revision applied eqS empty ref_states ref_results (lenN log)).
+  Notation CHECK_STEPS := (check_steps revision applied eqS empty ref_states ref_results (lenN log)).
+
+  Lemma Result_eqb_refl r : Result_eqb r r = true.
+  Proof.
+    unfold Result_eqb. rewrite !N.eqb_refl.
+    assert (B : forall b, bytes_eqb b b = true) by (intro b; apply bytes_eqb_eq; reflexivity).
+    rewrite B. cbn [andb].
+    assert (T : forall l, TSums_eqb l l = true).
+    { induction l as [|x l IHl]; [reflexivity|]. cbn. unfold TSum_eqb at 1. rewrite B, !Bool.eqb_reflx. exact IHl. }
+    rewrite T. reflexivity.
+  Qed.
+
+  Lemma Results_eqb_refl l : list_eqb Result_eqb l l = true.
+  Proof. induction l as [|x l IH]; [reflexivity|]. cbn. rewrite Result_eqb_refl. exact IH. Qed.
+
+  Lemma expected_results_eq h : (h <= length log)%nat -> forall cnt c, (c + cnt <= length log)%nat ->
+    expected_results revision applied empty ref_states ref_results (N.of_nat h) (N.of_nat c) cnt
+    = map (my_exp h) (seq c cnt).
+  Proof.
+    intro Hh. induction cnt as [|cnt IH]; intros c Hc; [reflexivity|].
+    cbn [expected_results seq map]. replace (N.of_nat c + 1) with (N.of_nat (S c)) by lia.
+    rewrite IH by lia. f_equal.
+    unfold expected_result, my_exp. rewrite Sk_ref by lia. rewrite Rk_ref by lia.
+    replace (N.of_nat c <? N.of_nat h) with (c <? h)%nat; [reflexivity|].
+    destruct (Nat.ltb_spec c h); symmetry; [apply N.ltb_lt|apply N.ltb_ge]; lia.
+  Qed.
+
+  Lemma expected_store_ok k : (k <= length log)%nat ->
+    expected_store revision eqS empty ref_states (N.of_nat k) (store_of k) = true.
+  Proof.
+    intro Hk. unfold expected_store. rewrite Sk_ref by lia. unfold store_of.
+    destruct (revision (Sref k) =? 0); [reflexivity|]. cbn. apply eqS_refl.
+  Qed.
+
+  (* a scenario is well formed when batches stay inside the log, a failed Save is followed by a
+     restart, and a restart replays from a position not beyond the acknowledged one *)
+  Fixpoint wf_cmds (c h hs : nat) (dg : bool) (cmds : list cmdstep) : Prop :=
+    match cmds with
+    | [] => True
+    | CBatch cnt mode :: r =>
+      dg = false /\ (c + N.to_nat cnt <= length log)%nat
+      /\ let h' := Nat.max h (c + N.to_nat cnt) in
+         if negb (mode =? 0) && negb (revision (Sref h') =? 0)
+         then wf_cmds c h (if mode =? 1 then hs else h') true r
+         else wf_cmds (c + N.to_nat cnt) h' h' false r
+    | CRestart c' :: r => (N.to_nat c' <= hs)%nat /\ wf_cmds (N.to_nat c') hs hs false r
+    end.
+
+  Ltac simp_obs :=
+    cbn [tr_c tr_h tr_hs st_kind st_n st_mode st_results st_err st_degraded st_pub st_final st_saved st_store
+         bo_results bo_err bo_final bo_saved m_state m_store m_degraded N.eqb Pos.eqb fst snd].
+
+  Lemma scen_ok : forall cmds m c h hs dg,
+    m_state m = Sref h -> m_store m = store_of hs -> m_degraded m = dg ->
+    (c <= h)%nat -> (h <= length log)%nat -> (hs <= length log)%nat -> (dg = false -> hs = h) ->
+    wf_cmds c h hs dg cmds ->
+    CHECK_STEPS (TRK (N.of_nat c) (N.of_nat h) (N.of_nat hs)) (RUN m (N.of_nat c) cmds) = true.
+  Proof.
+    induction cmds as [|cmd cmds IH]; intros m c h hs dg Hm Hst Hdg Hc Hh Hhs Hnd Hwf; [reflexivity|].
+    destruct cmd as [cnt mode|c'].
+    - (* a batch *)
+      cbn [wf_cmds] in Hwf. destruct Hwf as (Hdg0 & Hlen & Hwf). cbv zeta in Hwf.
+      specialize (Hnd Hdg0). subst hs.
+      cbn [run_cmds]. unfold batch_step. rewrite take_seq by (rewrite Nat2N.id; exact Hlen).
+      rewrite Nat2N.id.
+      rewrite (AB_outcome m mode h c (N.to_nat cnt) Hm Hc Hh Hlen).
+      set (h' := Nat.max h (c + N.to_nat cnt)%nat) in *.
+      assert (Hh' : (h' <= length log)%nat) by lia.
+      assert (EN : N.max (N.of_nat h) (N.of_nat c + cnt) = N.of_nat h') by lia.
+      assert (Hexp := expected_results_eq h Hh (N.to_nat cnt) c Hlen).
+      assert (Hlenb : (N.of_nat c + cnt <=? lenN log) = true) by (unfold lenN; lia).
+      destruct (N.eq_dec (revision (Sref h')) 0) as [E|E].
+      + (* nothing to save *)
+        rewrite (proj2 (N.eqb_eq _ _) E) in *. rewrite andb_false_r in Hwf.
+        cbn [check_steps st_err]. unfold check_step.
+        simp_obs.
+        rewrite EN, Hlenb, Sk_ref by lia. rewrite (proj2 (N.eqb_eq _ _) E). rewrite andb_false_r.
+        rewrite Hexp, Results_eqb_refl. cbn [negb].
+        rewrite Hdg, Hdg0. cbn [negb andb].
+        assert (E0 : revision (Sref h) = 0).
+        { destruct (N.eq_dec (revision (Sref h)) 0) as [X|X]; [exact X|].
+          exfalso. apply (Sref_rev_mono_le h h') in X; [contradiction|lia|lia]. }
+        assert (HSeq : Sref h = Sref h') by (rewrite (Sref_zero h Hh E0), (Sref_zero h' Hh' E); reflexivity).
+        assert (Hsto : store_of h = store_of h') by (rewrite (store_of_zero _ E0), (store_of_zero _ E); reflexivity).
+        rewrite Hm, HSeq, eqS_refl.
+        unfold oo_eq. rewrite eqS_refl. cbn [oo_none andb].
+        rewrite Hst, Hsto. rewrite expected_store_ok by lia.
+        replace (N.of_nat c + cnt) with (N.of_nat (c + N.to_nat cnt)) by lia.
+        apply (IH m (c + N.to_nat cnt)%nat h' h' false); try assumption; try lia; try reflexivity.
+        all: try (rewrite Hm; exact HSeq); try (rewrite Hst; exact Hsto); try (rewrite Hdg; exact Hdg0).
+      + rewrite (proj2 (N.eqb_neq _ _) E) in *. rewrite andb_true_r in Hwf.
+        destruct (N.eq_dec mode 0) as [M0|M0].
+        * (* saved *)
+          subst mode. cbn [N.eqb negb] in Hwf.
+          cbn [N.eqb check_steps st_err]. unfold check_step.
+          simp_obs.
+          rewrite EN, Hlenb, Sk_ref by lia. rewrite (proj2 (N.eqb_neq _ _) E).
+          rewrite Hexp, Results_eqb_refl. cbn [negb andb].
+          unfold oo_eq. rewrite eqS_refl. cbn [andb].
+          rewrite <- (store_of_nz _ E). rewrite expected_store_ok by lia.
+          replace (N.of_nat c + cnt) with (N.of_nat (c + N.to_nat cnt)) by lia.
+          apply (IH _ (c + N.to_nat cnt)%nat h' h' false); try assumption; try lia; try reflexivity.
+          all: try (cbn [m_store]; symmetry; apply store_of_nz; exact E).
+        * (* the save fails *)
+          rewrite (proj2 (N.eqb_neq _ _) M0) in *. cbn [negb] in Hwf.
+          destruct (N.eq_dec mode 1) as [M1|M1].
+          -- subst mode. cbn [N.eqb Pos.eqb] in *.
+             cbn [check_steps st_err]. unfold check_step.
+             simp_obs.
+             rewrite EN, Hlenb, !Sk_ref by lia. rewrite (proj2 (N.eqb_neq _ _) E).
+             rewrite Hexp, Results_eqb_refl. cbn [negb andb oo_none].
+             unfold oo_eq. rewrite !eqS_refl. cbn [andb].
+             rewrite Hst. rewrite expected_store_ok by lia.
+             apply (IH _ c h h true); try assumption; try lia; try reflexivity.
+             all: try (intro X; discriminate X).
+          -- rewrite (proj2 (N.eqb_neq _ _) M1) in *.
+             cbn [check_steps st_err]. unfold check_step.
+             simp_obs.
+             rewrite EN, Hlenb, !Sk_ref by lia. rewrite (proj2 (N.eqb_neq _ _) E).
+             rewrite (proj2 (N.eqb_neq _ _) M0), (proj2 (N.eqb_neq _ _) M1).
+             rewrite Hexp, Results_eqb_refl. cbn [negb andb oo_none].
+             unfold oo_eq. rewrite !eqS_refl. cbn [andb].
+             rewrite <- (store_of_nz _ E). rewrite expected_store_ok by lia.
+             apply (IH _ c h h' true); try assumption; try lia; try reflexivity.
+             all: try (cbn [m_store]; symmetry; apply store_of_nz; exact E); try (intro X; discriminate X).
+    - (* a restart *)
+      cbn [wf_cmds] in Hwf. destruct Hwf as (Hc' & Hwf).
+      cbn [run_cmds]. unfold restart_step, restart.
+      cbn [check_steps]. unfold check_step.
+      cbn [tr_c tr_h tr_hs st_kind st_n st_mode st_results st_err st_degraded st_pub st_final st_saved st_store m_state m_store m_degraded N.eqb Pos.eqb is_empty negb andb].
+      assert (Hpub : match m_store m with Some s => s | None => empty end = Sref hs).
+      { rewrite Hst. unfold store_of. destruct (N.eq_dec (revision (Sref hs)) 0) as [E|E].
+        - rewrite (proj2 (N.eqb_eq _ _) E). symmetry. apply Sref_zero; assumption.
+        - rewrite (proj2 (N.eqb_neq _ _) E). reflexivity. }
+      rewrite Hpub. rewrite Sk_ref by lia. rewrite eqS_refl. rewrite Hst, expected_store_ok by lia.
+      assert (Hle : (c' <=? N.of_nat hs) = true) by lia. rewrite Hle. cbn [andb].
+      replace c' with (N.of_nat (N.to_nat c')) at 1 2 by lia.
+      apply (IH _ (N.to_nat c') hs hs false); try assumption; try lia; try reflexivity.
+  Qed.
+
+  (* ---- the monitor on the frame's own observations ---- *)
+
+  Definition scen_wf (cmds : list cmdstep) : Prop := wf_cmds 0 0 0 false cmds.
+
+  Theorem frame_monitor (scens : list (list cmdstep)) :
+    Forall scen_wf scens ->
+    monitor_gen revision applied valid ckok eqS body_eq logical_eq empty
+                (map (fun e => fst (fst e)) log)
+                (RUN (fresh empty) 0 (repeat (CBatch 1 0) (length log)))
+                (map (RUN (fresh empty) 0) scens) = true.
+  Proof.
+    intro Hwf. unfold monitor_gen.
+    assert (Hfresh : fresh empty = refM 0).
+    { unfold refM, store_of, fresh. cbn [Sref]. rewrite rev_empty. reflexivity. }
+    rewrite Hfresh. change 0 with (N.of_nat 0).
+    rewrite run_singles by lia. fold ref_obs. fold ref_states. fold ref_results.
+    apply andb_true_iff. split.
+    - replace (map (fun e => fst (fst e)) log) with (map idx (seq 0 (length log))).
+      + apply (check_ref_ok (length log) 0). lia.
+      + unfold idx, ent. clear. induction log as [|x l IH] using rev_ind; [reflexivity|].
+        rewrite app_length, Nat.add_1_r, seq_S, !map_app. cbn [map Nat.add].
+        rewrite app_nth2, Nat.sub_diag by lia. cbn [nth]. f_equal.
+        rewrite <- IH. apply map_ext_in. intros k Hk. apply in_seq in Hk. rewrite app_nth1 by lia. reflexivity.
+    - apply forallb_forall. intros ss Hin. apply in_map_iff in Hin. destruct Hin as (cmds & <- & Hin).
+      rewrite Forall_forall in Hwf. specialize (Hwf cmds Hin). unfold scen_wf in Hwf.
+      unfold check_scen.
+      replace (lenN (map (fun e => fst (fst e)) log)) with (lenN log) by (unfold lenN; rewrite map_length; reflexivity).
+      apply (scen_ok cmds (refM 0) 0 0 0 false); try reflexivity; try lia; assumption.
   Qed.
 End FrameProof.
